@@ -20,9 +20,16 @@ namespace Rooc.Display
 open Rooc
 
 inductive Item (α : Type) where
-  | leaf (e : Exp α)          -- an atom or a parenthesised group
+  | atom (e : Exp α)                          -- a non-`BinOp` node, rendered by `Display` itself
+  | group (inner : Option BinOp) (e : Exp α)  -- `( … )` around `e` rendered in context `inner`
   | infix (op : BinOp)
   deriving Inhabited
+
+/-- the tree a leaf item (atom or parenthesised group) stands for -/
+def Item.tree? {α : Type} : Item α → Option (Exp α)
+  | .atom e => some e
+  | .group _ e => some e
+  | .infix _ => none
 
 section
 variable {α : Type}
@@ -35,13 +42,13 @@ def items : Option BinOp → Exp α → List (Item α)
     match ctx with
     | none => il ++ [.infix op] ++ ir
     | some last =>
-      if Gen.binPrec op < Gen.binPrec last then [.leaf (.bin op lhs rhs)]
+      if Gen.binPrec op < Gen.binPrec last then [.group none (.bin op lhs rhs)]
       else match last with
         | .sub =>
           if isLeaf rhs then il ++ [.infix op] ++ ir
-          else il ++ [.infix op] ++ [.leaf rhs]
+          else il ++ [.infix op] ++ [.group (some op) rhs]
         | _ => il ++ [.infix op] ++ ir
-  | _, e => [.leaf e]
+  | _, e => [.atom e]
 
 /-! ### the documented grouping rules -/
 
@@ -54,13 +61,22 @@ mutual
 /-- `PExpr r items t rest`: reading an expression with minimum binding power `r` from `items`
 yields the tree `t` and leaves `rest`. -/
 inductive PExpr : Nat → List (Item α) → Exp α → List (Item α) → Prop
-  | mk {r lhs rest1 t rest} : PLoop r lhs rest1 t rest → PExpr r (.leaf lhs :: rest1) t rest
+  | mk {r it lhs rest1 t rest} : it.tree? = some lhs → PLoop r lhs rest1 t rest → PExpr r (it :: rest1) t rest
 inductive PLoop : Nat → Exp α → List (Item α) → Exp α → List (Item α) → Prop
   | stopNil {r lhs} : PLoop r lhs [] lhs []
   | stopOp {r lhs o rest} : ¬ r < lbp o → PLoop r lhs (.infix o :: rest) lhs (.infix o :: rest)
   | step {r lhs o rest rhs rest' t rest''} : r < lbp o → PExpr (rbp o) rest rhs rest' →
       PLoop r (.bin o lhs rhs) rest' t rest'' → PLoop r lhs (.infix o :: rest) t rest''
 end
+
+/-- the text of one item -/
+def renderItem (tok : α → String) : Item α → String
+  | .atom e => showE tok none e
+  | .group c e => "(" ++ showE tok c e ++ ")"
+  | .infix op => binOpStr op
+
+/-- the text of an item stream: items separated by single blanks -/
+def renderItems (tok : α → String) (is : List (Item α)) : String := joinWith " " (is.map (renderItem tok))
 
 /-- The stream reads back as the tree `t` (all items consumed). -/
 def ReadsAs (is : List (Item α)) (t : Exp α) : Prop := PExpr 0 is t []
@@ -78,6 +94,22 @@ def needRight (o : BinOp) : Exp α → Bool
 def placed (o : BinOp) : Exp α → Bool
   | .bin o' _ _ => decide (Gen.binPrec o' < Gen.binPrec o)
   | _ => false
+
+/-- parentheses are REQUIRED around an operand on the given side of `o` -/
+def needSide (o : BinOp) (isRhs : Bool) (e : Exp α) : Bool := if isRhs then needRight o e else needLeft o e
+
+/-- The repaired rendering rule (fixes/C12-display-parens.diff): an operand is parenthesised exactly
+when the grouping rules need it, looking at the side it sits on. -/
+def itemsFixed : Option (BinOp × Bool) → Exp α → List (Item α)
+  | ctx, .bin op lhs rhs =>
+    let il := itemsFixed (some (op, false)) lhs
+    let ir := itemsFixed (some (op, true)) rhs
+    match ctx with
+    | none => il ++ [.infix op] ++ ir
+    | some (parent, isRhs) =>
+      if needSide parent isRhs (.bin op lhs rhs) then [.group none (.bin op lhs rhs)]
+      else il ++ [.infix op] ++ ir
+  | _, e => [.atom e]
 
 /-- every parenthesis the grouping rules need on the binary-operator skeleton of `e` is printed. -/
 def noDefect : Exp α → Bool
